@@ -16,6 +16,9 @@ for l in open(os.path.join(ROOT, "properties.jsonl")):
     files = p["anchors"].get("files", [])
     if "--all" in sys.argv or any(t == f or t.endswith("/" + f) or f.endswith("/" + t) for t in touched for f in files):
         props.append(p["id"])
+for a in sys.argv:
+    if a.startswith("--only="):
+        props = a[len("--only="):].split(",")
 wt = "/tmp/bnev-%d" % os.getpid()
 subprocess.check_call(["git", "-C", "/repo", "worktree", "add", "-q", "--detach", wt, "HEAD"])
 res = {"patch": patch, "touched": touched, "props": props, "results": {}}
